@@ -37,6 +37,12 @@ const double DECAY_FRACTION = 0.5;  // RMS after >= 1 s of loss / pre-loss RMS, 
                                     // "inactive"), observed up to 0.88 of the pre-loss RMS for 8 s on a continuously voiced signal with VAD=1 in every frame.
 const double RECONV_SNR_CELT_DB = 50.0;   // MDCT-only streams, 500-700 ms after resumption: observed >= 99 dB
 const double RECONV_SNR_OTHER_DB = 18.0;  // speech layer involved, speech-like / noise input: observed >= 30.0 dB (stationary tones excluded: the long-term predictor keeps a state mismatch alive, observed down to -15 dB)
+// Level of frames recovered from LBRR data vs the same frames decoded without loss, aggregated per case and position class over >= 3 frames with real
+// signal: observed on the repaired tree (4800 cases) >= -17.9 dB (20 ms packets, 2 frames), >= -9.0 dB for later frames whose predecessor has no LBRR data;
+// finding F24 (those frames decoded about 31 dB too quiet) sits far below both bounds.
+const double FEC_LEVEL_MIN_DB = -24.0;        // absolute
+const double FEC_LEVEL_VS_FIRST_DB = -20.0;   // later frames relative to the first frames of the same stream
+const double FEC_GAIN_LONG_DB = -1.5;   // 40/60 ms packets: observed >= -0.003 dB, median 7 dB: only "not worse than concealment" is asserted there
 const double FEC_GAIN_DB = 2.0;     // aggregate error-energy gain of FEC over PLC, 10/20 ms frames: observed >= 6.5 dB (40/60 ms frames: >= 0.2 dB, no clause)
 
 struct Cfg { int Fs, ch, mode, d, bitrate, fec, loss, complexity, family, app; };
@@ -74,6 +80,24 @@ bool silk_all_vad(const uint8_t* pkt, int len) {
   return true;
 }
 
+// RFC 6716 4.2.4 (Tables 3, 4): per-frame LBRR flags of a mono speech-layer / hybrid packet holding one Opus frame; -1 when not applicable.
+// Bit f set = the packet carries LBRR data for speech frame f of the *previous* packet.
+int silk_lbrr_flags_mono(const uint8_t* pkt, int len, int* nsilk_out) {
+  rfc::Parsed p = rfc::parse(pkt, len, false);
+  if (!p.ok || p.count != 1 || p.size[0] < 1) return -1;
+  rfc::TocInfo t = rfc::toc_info(pkt[0]);
+  if (t.mode == rfc::CELT || t.stereo) return -1;
+  int nsilk = t.dur_400 <= 8 ? 1 : t.dur_400 / 8;
+  *nsilk_out = nsilk;
+  std::vector<uint8_t> copy(pkt + p.offset[0], pkt + p.offset[0] + p.size[0]);
+  ec_dec dec; ec_dec_init(&dec, copy.data(), (opus_uint32)copy.size());
+  for (int i = 0; i < nsilk; i++) (void)ec_dec_bit_logp(&dec, 1);
+  if (!ec_dec_bit_logp(&dec, 1)) return 0;
+  if (nsilk == 1) return 1;
+  static const unsigned char ICDF2[3] = {203, 150, 0}, ICDF3[7] = {215, 195, 166, 125, 110, 82, 0};
+  return ec_dec_icdf(&dec, nsilk == 2 ? ICDF2 : ICDF3, 8) + 1;
+}
+
 void calib_log(const char* what, double v, const char* cls) {
   const char* p = getenv("VP_C09_CALIB");
   if (!p) return;
@@ -101,7 +125,10 @@ int vp_case(Choice& c, Report& rep) {
   } else if (family == 2) {
     g.Fs = c.pick((const int[]){16000, 48000, 24000, 12000}); g.ch = 1 + (c.chance(60) ? 1 : 0); g.mode = c.chance(170) ? 1000 : 1001;
     if (g.mode == 1001 && g.Fs < 24000) g.mode = 1000;
-    g.d = c.chance(200) ? 3 : c.pick((const int[]){2, 4, 5}); if (g.mode == 1001 && g.d > 3) g.d = 3;
+    g.d = c.chance(200) ? 3 : c.pick((const int[]){2, 4, 5});
+    // one FEC stream in three uses 40 / 60 ms packets (several speech frames per packet, LBRR flags per frame): switch derived from the case hash
+    { uint64_t fh = fnv1a(c.d, c.n); if (fh % 3 == 1) g.d = ((fh >> 9) & 1) ? 5 : 4; }
+    if (g.mode == 1001 && g.d > 3) g.d = 3;
     g.bitrate = c.irange(g.mode == 1001 ? 28000 : 16000, 48000) * g.ch; g.fec = 1; g.loss = c.irange(15, 40); g.complexity = c.irange(2, 8);
     g.family = sig::SPEECHLIKE; g.app = OPUS_APPLICATION_VOIP;
   } else {
@@ -182,6 +209,18 @@ int vp_case(Choice& c, Report& rep) {
   sig::generate(g.family, sig_seed, g.Fs, g.ch, N * fs, amp, x);
   // hash-derived generator switches (no new choices: committed replays keep their meaning)
   const uint64_t gh = fnv1a(c.d, c.n);
+  // (c) FEC streams with 40 / 60 ms packets (one in two) or shorter ones (one in eight): the signal is gated into bursts (60-120 ms on, 40-90 ms nearly off, 2 ms ramps) so that speech activity, and
+  //     with it the per-frame LBRR flags, changes inside packets (a frame with LBRR data after a frame without: coded independently, finding F24)
+  if (family == 2 && (g.d >= 4 ? ((gh >> 20) & 1) : ((gh >> 20) & 7) == 7)) {
+    const int on = g.Fs * (60 + (int)((gh >> 24) % 61)) / 1000, off = g.Fs * (40 + (int)((gh >> 32) % 51)) / 1000, ramp = g.Fs / 500;
+    for (int i = 0; i < N * fs; i++) {
+      int ph = i % (on + off);
+      double e = ph < on ? std::min(1.0, std::min((double)ph / ramp, (double)(on - ph) / ramp)) : 0.0;
+      e = 0.003 + 0.997 * e;
+      for (int cc = 0; cc < g.ch; cc++) x[(size_t)i * g.ch + cc] *= (float)e;
+    }
+    rep.label("class:gated-bursts");
+  }
   // (a) a mono-coded stream decoded by stereo decoders (stream channel count != decoder channel count during concealment)
   const bool mono_stream = g.ch == 2 && family != 2 && (gh % 4) == 1;
   // (b) the forced channel count toggles between 1 and 2 every 7..14 packets (losses and FEC recovery right after a channel switch)
@@ -226,6 +265,10 @@ int vp_case(Choice& c, Report& rep) {
   // ---- decode
   std::vector<float> yl((size_t)N * fs * g.ch), yc((size_t)N * fs * g.ch), yp((size_t)N * fs * g.ch), yr((size_t)N * fs * g.ch);
   double e_fec = 0, e_plc = 0, e_fec_ref = 0; int fec_frames = 0; double e_fec_all = 0, e_fec_ref_all = 0; int fec_all = 0;
+  // level of frames recovered from LBRR data against the loss-free twin, by position: [0] first speech frame of the packet, [1] later frame whose
+  // predecessor also has LBRR data (delta-coded), [2] later frame whose predecessor has none (coded independently)
+  double lv_fec[3] = {0, 0, 0}, lv_clean[3] = {0, 0, 0}; int lv_n[3] = {0, 0, 0};
+  double lv_frame_min = 1e9; int lv_frame_min_at = -1, lv_frame_min_cl = 0; int lv_frames = 0, lv_low = 0;
   int first_loss = -1, resumed_at = -1; int run = 0, longest_run = 0; int run_start = -1;
   double preloss_rms = 0, preloss_peak = 0;
   // quietest 100 ms block of the loss-free output so far: the decoder's concealment deliberately settles at its background-noise
@@ -301,6 +344,23 @@ int vp_case(Choice& c, Report& rep) {
       VP_REQUIRE(n == req, "c09:fec-duration", "FEC request of %d samples returned %d (next packet has_lbrr=%d)", req, n, has);
       rep.label(has > 0 ? "fec-with-lbrr" : "fec-without-lbrr");
       if (has > 0) { for (int k = 0; k < fs * g.ch; k++) { double a = ol[k] - oc[k], b = orf[k] - oc[k]; e_fec_all += a * a; e_fec_ref_all += b * b; } fec_all++; }
+      if (has > 0 && g.ch == 1 && req == fs) {
+        int nsilk = 1, flags = silk_lbrr_flags_mono(nd.p, (int)pk[i + 1].size(), &nsilk);
+        if (flags > 0 && fs % nsilk == 0) {
+          const int w = fs / nsilk;
+          for (int f = 0; f < nsilk; f++) if ((flags >> f) & 1) {
+            int cl = f == 0 ? 0 : ((flags >> (f - 1)) & 1) ? 1 : 2;
+            double ef = 0, ec2 = 0;
+            for (int k = f * w; k < (f + 1) * w; k++) { ef += (double)ol[k] * ol[k]; ec2 += (double)oc[k] * oc[k]; }
+            if (ec2 >= 1e-4 * w) {     // frames with real signal (rms >= 0.01) only
+              lv_fec[cl] += ef; lv_clean[cl] += ec2; lv_n[cl]++;
+              double fl = 10 * std::log10((ef + 1e-20) / ec2);
+              if (fl < lv_frame_min) { lv_frame_min = fl; lv_frame_min_at = i; lv_frame_min_cl = cl; }
+              lv_frames++; if (fl < -15.0) lv_low++;
+            }
+          }
+        }
+      }
       if (family == 2) {
         n = opus_decode_float(plconly.p, nullptr, 0, op, fs, 0);
         VP_REQUIRE(n == fs, "c09:plc-duration", "concealment request of %d samples returned %d", fs, n);
@@ -415,11 +475,34 @@ int vp_case(Choice& c, Report& rep) {
     VP_REQUIRE(e_fec_all <= 2.0 * e_fec_ref_all + 1e-7 * fec_all * fs, "c09:fec-worse-than-frozen", "over %d frames recovered from LBRR data the error energy against the loss-free twin is %.3g, frozen decoder on the same calls %.3g", fec_all, e_fec_all, e_fec_ref_all);
     rep.label("fec-vs-frozen-checked");
   }
-  if (family == 2 && fec_frames >= 20 && g.d <= 3 && !two_talkers) {
+  if (lv_frame_min_at >= 0) { char cb[200]; snprintf(cb, sizeof cb, "%s/d%d/Fs%d/br%d/class%d/pkt%d", cls, g.d, g.Fs, g.bitrate, lv_frame_min_cl, lv_frame_min_at); calib_log("fec_frame_min_db", lv_frame_min, cb);
+    snprintf(cb, sizeof cb, "%s/d%d/Fs%d/br%d/low%d/of%d/fam%d", cls, g.d, g.Fs, g.bitrate, lv_low, lv_frames, family); calib_log("fec_low_frac", lv_frames ? (double)lv_low / lv_frames : 0, cb); }
+  // (count) over all frames recovered from LBRR data that carry real signal: those coming out more than 15 dB too quiet.  Repaired tree: 0 of ~50 000 frames in
+  // 970 cases with >= 8 such frames; finding F25 (gain chain of the LBRR frame anchored at the wrong index, sharp onsets inside a frame): up to 23 % of the frames
+  // of a gated 40/60 ms stream.  One such frame is tolerated, plus one per 40.
+  if (lv_frames >= 8) {
+    VP_REQUIRE(lv_low <= 1 + lv_frames / 40, "c09:fec-frames-far-too-quiet", "%d of %d frames recovered from LBRR data (%g ms packets) carry less than -15 dB of the energy of the same frames decoded without loss (quietest: %.1f dB, packet %d)",
+               lv_low, lv_frames, cu::DUR400[g.d] * 2.5, lv_frame_min, lv_frame_min_at);
+    rep.label("fec-low-frame-count-checked");
+  }
+  {
+    static const char* const NM[3] = {"first speech frame of the packet", "later frame, predecessor has LBRR data", "later frame, predecessor has no LBRR data"};
+    double lv[3] = {0, 0, 0};
+    for (int cl = 0; cl < 3; cl++) if (lv_n[cl] >= (cl == 2 ? 2 : 3)) {
+      lv[cl] = 10 * std::log10((lv_fec[cl] + 1e-20) / (lv_clean[cl] + 1e-20));
+      { char cb[200]; snprintf(cb, sizeof cb, "%s/d%d/Fs%d/br%d/class%d/n%d", cls, g.d, g.Fs, g.bitrate, cl, lv_n[cl]); calib_log("fec_level_db", lv[cl], cb); }
+      VP_REQUIRE(lv[cl] >= FEC_LEVEL_MIN_DB, "c09:fec-frames-far-too-quiet", "%d frames recovered from LBRR data (%s, %g ms packets) carry %.1f dB of the energy of the same frames decoded without loss", lv_n[cl], NM[cl], cu::DUR400[g.d] * 2.5, lv[cl]);
+      if (cl > 0 && lv_n[0] >= 3)
+        VP_REQUIRE(lv[cl] >= lv[0] + FEC_LEVEL_VS_FIRST_DB, "c09:fec-frames-far-too-quiet", "%d frames recovered from LBRR data (%s, %g ms packets) carry %.1f dB of the energy of the same frames decoded without loss, the first frames of the packets %.1f dB", lv_n[cl], NM[cl], cu::DUR400[g.d] * 2.5, lv[cl], lv[0]);
+      rep.labelf("fec-level-checked:class%d", cl);
+    }
+  }
+  if (family == 2 && fec_frames >= 20 && g.d <= 5 && !two_talkers) {
     double gain = 10 * std::log10((e_plc + 1e-20) / (e_fec + 1e-20));
-    { char cb[200]; snprintf(cb, sizeof cb, "%s/Fs%d/ch%d/br%d/n%d/loss%d", cls, g.Fs, g.ch, g.bitrate, fec_frames, g.loss); calib_log("fec_gain_db", gain, cb); }
-    VP_REQUIRE(gain >= FEC_GAIN_DB, "c09:fec-not-better", "over %d single losses with LBRR available, FEC error energy is only %.2f dB below concealment", fec_frames, gain);
-    rep.label("fec-aggregate-checked");
+    { char cb[200]; snprintf(cb, sizeof cb, "%s/d%d/Fs%d/ch%d/br%d/n%d/loss%d", cls, g.d, g.Fs, g.ch, g.bitrate, fec_frames, g.loss); calib_log("fec_gain_db", gain, cb); }
+    const double need = g.d <= 3 ? FEC_GAIN_DB : FEC_GAIN_LONG_DB;
+    VP_REQUIRE(gain >= need, "c09:fec-not-better", "over %d single losses with LBRR available (%g ms packets), FEC error energy is only %.2f dB below concealment (required %.1f dB)", fec_frames, cu::DUR400[g.d] * 2.5, gain, need);
+    rep.label(g.d <= 3 ? "fec-aggregate-checked" : "fec-aggregate-checked-40-60ms");
   }
   (void)sched_end; (void)burst_packets; (void)e_fec_ref; (void)K_PEAK_FEC;
   if (longest_run * (long)fs >= g.Fs) rep.label("burst>=1s");
